@@ -3075,9 +3075,7 @@ class Device(utils.CompositeEventEmitter):
         random_address = hci.Address.generate_private_address(self.irk)
         try:
             await self.send_sync_command(
-                hci.HCI_LE_Set_Random_Address_Command(
-                    random_address=self.random_address
-                )
+                hci.HCI_LE_Set_Random_Address_Command(random_address=random_address)
             )
             logger.info(f'new RPA: {random_address}')
             self.random_address = random_address
